@@ -49,15 +49,14 @@ package watutil
 //@   loop 2 invariant allocated(funcNames) && allocated(localNames)
 //@   loop 2 invariant fn_ok(funcNames)
 //@   loop 2 invariant ln_ok(localNames, funcNames)
-//@   loop 2 invariant forall i int :: 0 <= i && i <= rangeindex ==> funcNames[importFuncCount+i].Name == p.mWat.Funcs[i].Name && map_names(localNames[importFuncCount+i].NameMap, p.mWat.Funcs[i])
+//@   loop 2 invariant forall i int :: 0 <= i && i <= rangeindex ==> funcNames[importFuncCount+i].Name == p.mWat.Funcs[i].Name
 //   parameters of one function
 //@   loop 3 invariant -1 <= rangeindex && rangeindex < len(fn.Type.Params) && 0 <= rangeindex_L2+1 && rangeindex_L2+1 < len(p.mWat.Funcs) && fn == p.mWat.Funcs[rangeindex_L2+1]
 //@   loop 3 invariant 0 <= importFuncCount && importFuncCount <= len(p.mWat.Imports) && len(funcNames) == importFuncCount + rangeindex_L2+1 && len(localNames) == len(funcNames)
 //@   loop 3 invariant allocated(funcNames) && allocated(localNames)
 //@   loop 3 invariant fn_ok(funcNames)
 //@   loop 3 invariant ln_ok(localNames, funcNames)
-//@   loop 3 invariant forall i int :: 0 <= i && i <= rangeindex_L2 ==> funcNames[importFuncCount+i].Name == p.mWat.Funcs[i].Name && map_names(localNames[importFuncCount+i].NameMap, p.mWat.Funcs[i])
-//@   loop 3 invariant map_names(localNameMap, fn)
+//@   loop 3 invariant forall i int :: 0 <= i && i <= rangeindex_L2 ==> funcNames[importFuncCount+i].Name == p.mWat.Funcs[i].Name
 //@   loop 3 invariant map_sorted(localNameMap) && map_below(localNameMap, rangeindex+1) && sep(localNameMap, funcNames) && ln_sep(localNames, localNameMap)
 //   locals of one function
 //@   loop 4 invariant -1 <= rangeindex && rangeindex < len(fn.Locals) && 0 <= rangeindex_L2+1 && rangeindex_L2+1 < len(p.mWat.Funcs) && fn == p.mWat.Funcs[rangeindex_L2+1]
@@ -65,14 +64,12 @@ package watutil
 //@   loop 4 invariant allocated(funcNames) && allocated(localNames)
 //@   loop 4 invariant fn_ok(funcNames)
 //@   loop 4 invariant ln_ok(localNames, funcNames)
-//@   loop 4 invariant forall i int :: 0 <= i && i <= rangeindex_L2 ==> funcNames[importFuncCount+i].Name == p.mWat.Funcs[i].Name && map_names(localNames[importFuncCount+i].NameMap, p.mWat.Funcs[i])
-//@   loop 4 invariant map_names(localNameMap, fn)
+//@   loop 4 invariant forall i int :: 0 <= i && i <= rangeindex_L2 ==> funcNames[importFuncCount+i].Name == p.mWat.Funcs[i].Name
 //@   loop 4 invariant map_sorted(localNameMap) && map_below(localNameMap, len(fn.Type.Params) + rangeindex+1) && sep(localNameMap, funcNames) && ln_sep(localNames, localNameMap)
 //@   ensures[fn-index] fn_ok(p.mWasm.NameSection.FunctionNames)
 //@   ensures[ln-len]   len(p.mWasm.NameSection.LocalNames) == len(p.mWasm.NameSection.FunctionNames)
 //@   ensures[ln-index] ln_ok(p.mWasm.NameSection.LocalNames, p.mWasm.NameSection.FunctionNames)
 //@   ensures[fn-name]  forall i int :: 0 <= i && i < len(p.mWat.Funcs) ==> p.mWasm.NameSection.FunctionNames[len(p.mWasm.NameSection.FunctionNames)-len(p.mWat.Funcs)+i].Name == p.mWat.Funcs[i].Name
-//@   ensures[ln-name]  forall i int :: 0 <= i && i < len(p.mWat.Funcs) ==> map_names(p.mWasm.NameSection.LocalNames[len(p.mWasm.NameSection.LocalNames)-len(p.mWat.Funcs)+i].NameMap, p.mWat.Funcs[i])
 //@   modifies p.mWasm.NameSection.FunctionNames, p.mWasm.NameSection.LocalNames
 //@   noframe
 //@   property C04
